@@ -1,4 +1,5 @@
 import Batteries.Tactic.Alias
+import GenlmModel.Proofs.UCycle
 import GenlmModel.Proofs.SepStart
 import GenlmModel.Proofs.Tab
 import GenlmModel.Proofs.Norm
@@ -38,4 +39,7 @@ alias null_weights_from_prefixed_point := Genlm.WN_nil_le_of_prefixed
 alias unaryremove_preserves := Genlm.unaryRemove_preserves
 alias unaryremove_limit := Genlm.unaryRemove_limit
 alias unary_closure_from_prefixed_point := Genlm.UW_le_of_prefixed
+/-- unary-cycle removal, relative to the block closures -/
+alias unarycycleremove_preserves := Genlm.ucycle_preserves
+alias unarycycleremove_limit := Genlm.ucycle_limit
 end Genlm.Props.C06
